@@ -229,7 +229,7 @@ def gen_context(rng, cx, t, opts, st, depth):
         if w > s:
             st.tainted = True
     elif cx == 'split':
-        pred = rng.choice(['div:%d', 'divt:%d', 'divs:%d', 'divbig:%d', 'divpar:%d', 'divnp:%d', 'divbool:%d', 'divcent:%d', 'divnone:%d', 'divnan:%d', 'divobj:%d', 'divtag:%d']) % _k(rng) if t == 'i' else 'digpar:%d' % _k(rng, 10, 40)
+        pred = rng.choice(['div:%d', 'divt:%d', 'divs:%d', 'divbig:%d', 'divpar:%d', 'divnp:%d', 'divbool:%d', 'divcent:%d', 'divnone:%d', 'divnan:%d', 'divobj:%d', 'divtag:%d', 'divcls:%d']) % _k(rng) if t == 'i' else 'digpar:%d' % _k(rng, 10, 40)
         node = ['split', pred, inner]
     else:
         cfg = {'active': rng.choice([None, 3, 5, 8]), 'inactive': rng.choice([None, 2, 3, 4]),
